@@ -41,6 +41,7 @@ def cfgOfArgs (kv : List (String × String)) : Cfg :=
     boundsCompressedSize := triArg kv "boundsCompressedSize" false
     boundsDecodedLen := triArg kv "boundsDecodedLen" false
     parseConsumesAll := triArg kv "parseConsumesAll" false
+    shortPayloadIsEOF := triArg kv "shortPayloadIsEOF" false
     v2Fallback := triArg kv "v2Fallback" true
     rejectsLongName := triArg kv "rejectsLongName" false }
 
